@@ -5,6 +5,22 @@ props=[json.loads(l) for l in open('/verif/properties.jsonl')]
 ENV="GOFLAGS=-mod=mod GOPROXY=off GOSUMDB=off GOTOOLCHAIN=local"
 TECH="bounded symbolic execution of the real Go code (go/ssa -> SMT-LIB2 bit-vector encoding written for this task), decided by SMT solvers (z3 5.1.0 / z3 4.8.12 / cvc5), counterexamples replayed natively"
 claimed = {
+ "C03": dict(
+   text="Bounded model checking of the real comparison code in results.go: comma-joining laws of canonicalizeHeaderVals (strings <=3 bytes), checkHeaders against a set-theoretic reference (<=2 headers per side, mixed-case names, joined/split values), checkError against the documented table (<=2 details per side, every position), the echoed-timeout window for all int64 values, and assert() with the header/trailer merging leniency and HTTP status rule - each as an iff between 'no discrepancy reported' and the reference predicate.",
+   note="String alphabets are small constant sets; anypb/protocmp are contract stubs (equal iff type URL and bytes equal), natively replaced by real messages; discrepancy texts are not checked; payload/request-echo comparison (checkPayloads bytes, request round trip) not covered yet.",
+   ref="7 (C03)"),
+ "C04": dict(
+   text="Bounded model checking of testResults.report (with processSidebandInfoLocked): for <=2 named cases with every combination of outcome {pass, failure, could-not-run}, setup-error, known-failing, known-flaky, peer feedback and 0..2 selected cases without any outcome, the return value, the FAILED lines and the printed totals equal the reference classification; plus (C10 harness H10a) a finished client process is reported as not running.",
+   note="Run()/run() (`report() && err == nil`, processes, goroutines) are read off the source, not encoded; printer is a recording stub; message layout (indent) is cut.",
+   ref="7 (C04)"),
+ "C06": dict(
+   text="Bounded model checking of resolveFeatures, computeCasesFromFeatures and resolveCase (real SSA, nine nested range loops) against the declarative membership formula written from config.proto: for every Features message with axis lists of length <=2 (arbitrary repeated/unordered elements) and 7 tri-state flags, an arbitrary probe case (all 10 fields symbolic) is in the computed set iff the specification admits it; defaults, contradiction errors and validity of every member are asserted too; include/exclude entries (every field set or omitted) are checked one and two in sequence against symbolic features.",
+   note="parseConfig's own set-algebra loops (include/exclude over the maps) are not encoded (the map logs make the query intractable); resolveCase is checked directly instead. Only z3 5.1.0 decides the membership queries within minutes (z3 4.8.12 and cvc5 time out), so they are not cross-checked.",
+   ref="7 (C06)"),
+ "C10": dict(
+   text="Bounded model checking of clientProcessRunner (sendRequest, consumeOutput, waitForResponses, runClient) over sequentialised schedules: <=2 sends (duplicate names, write failures) issued before, during (at every read) or after the output reader, client output of <=2 responses (known/unknown/repeated names) ending in clean EOF or an error; asserts exactly-once callbacks with the right response or an error, refusal after failure, nothing left pending, waitForResponses reporting abnormal ends, isRunning() false after the process ended.",
+   note="Atomic-step schedules only (no interleaving inside a lock-protected section, no data races); delimited I/O is stubbed in the engine and realised with real bytes natively; real pipes/processes are outside.",
+   ref="7 (C10)"),
  "C08": dict(
    text="Bounded model checking of the real trie code: testTrie.add/match are executed symbolically from their SSA and compared with a recursive glob reference for every pattern set (<=2 patterns x <=3 components over {a,b,*,**}) and every name (<=3 components); reachable panics and unwinding assertions are obligations too. The solver decides all inputs inside the bound at once; nothing is sampled.",
    note="Inside the bound only. Strings are drawn from a finite alphabet of constants; trusted: go/ssa lowering, the gosym encoder, the solvers, the glob reference in the harness. Not covered yet: @file parsing, unmatched-pattern reporting, known-failing/flaky conflict check inside run().",
